@@ -337,6 +337,20 @@ theorem C06_offer_context_exact (spec : WfSpec) (parentCtx inputs : Val.Dict) (o
   rw [← hid] at hi
   exact hpl p hp i hi
 
+/-! ### C13: a re-offered task carries the retry delay -/
+
+/-- **C13**, for every state: every offer comes from one of the ready staged entries the query
+    looked at, and when that entry was re-staged for a retry the offer carries the retry policy's
+    delay (the evaluated value; 0 when none is configured or it is not truthy) instead of the
+    task's own delay -/
+theorem C13_reoffer_carries_retry_delay (c : Cond) (offers : List Offer) (c' : Cond)
+    (h : getNextTasks E c = (.ok offers, c')) :
+    ∀ o ∈ offers, ∃ sx ∈ c.st.readyStaged, sx.id = o.id ∧ sx.route = o.route ∧
+      ∀ r, sx.retry = some r → o.delay = some (retryDelayOf r) := by
+  intro o ho
+  obtain ⟨sx, hsx, h1, h2, h3⟩ := nextFrom_delay E (nextTodo c.st) c c' offers h o ho
+  exact ⟨sx, (nextTodo_sub c.st sx hsx).1, h1, h2, h3⟩
+
 /-- non-vacuity: a state with a published snapshot reaching a staged task -/
 def exampleStateCA : Cond where
   spec := ⟨[], [], [], []⟩
